@@ -145,7 +145,42 @@ func (o *OLVM) Plan(c *Ctx) []hist.TxSpec {
 			if i > 0 && o.OneTx {
 				break
 			}
-			switch c.R.Intn(8) {
+			switch c.R.Intn(11) {
+			case 8:
+				// nonce behind / wrong chain id: fail the consensus pre-checks (delivered by a byzantine proposer)
+				to := ethcmn.BytesToAddress(es[pick(c.R, len(es))].Addr)
+				n := o.nonce[from.Addr.String()]
+				key := c.W.EthKeys[from.Addr.String()]
+				if n > 0 && c.R.Intn(2) == 0 {
+					bz := OLVMTx(c, from, key, n-1, &to, big.NewInt(5), nil, 21000, "1000000000", ChainIDOf(c.W), fmt.Sprint(n-1))
+					sp := hist.TxSpec{Kind: "OLVM", Bytes: bz, Note: "nonce behind (pre-check failure)", Signers: []string{from.Addr.String()}, Force: true}
+					sp.Meta = map[string]string{"from": from.Addr.String(), "nonce": fmt.Sprint(n - 1), "value": "5", "to": keys.Address(to.Bytes()).String(), "data": ""}
+					out = append(out, sp)
+				} else {
+					bz := OLVMTx(c, from, key, n, &to, big.NewInt(5), nil, 21000, "1000000000", big.NewInt(12345), fmt.Sprint(n))
+					sp := hist.TxSpec{Kind: "OLVM", Bytes: bz, Note: "wrong chain id (pre-check failure)", Signers: []string{from.Addr.String()}, Force: true}
+					sp.Meta = map[string]string{"from": from.Addr.String(), "nonce": fmt.Sprint(n), "value": "5", "to": keys.Address(to.Bytes()).String(), "data": ""}
+					out = append(out, sp)
+				}
+			case 9:
+				// value above the balance: fails the balance pre-check
+				to := ethcmn.BytesToAddress(es[pick(c.R, len(es))].Addr)
+				n := o.nonce[from.Addr.String()]
+				key := c.W.EthKeys[from.Addr.String()]
+				v := new(big.Int).Add(BalanceOf(c.S, from.Addr, "OLT"), big.NewInt(1))
+				bz := OLVMTx(c, from, key, n, &to, v, nil, 21000, "1000000000", ChainIDOf(c.W), fmt.Sprint(n))
+				sp := hist.TxSpec{Kind: "OLVM", Bytes: bz, Note: "value above balance (pre-check failure)", Signers: []string{from.Addr.String()}, Force: true}
+				sp.Meta = map[string]string{"from": from.Addr.String(), "nonce": fmt.Sprint(n), "value": v.String(), "to": keys.Address(to.Bytes()).String(), "data": ""}
+				out = append(out, sp)
+			case 10:
+				// nonce ahead by two: tolerated by the relaxed pre-check, still exactly one step
+				to := ethcmn.BytesToAddress(es[pick(c.R, len(es))].Addr)
+				n := o.nonce[from.Addr.String()]
+				key := c.W.EthKeys[from.Addr.String()]
+				bz := OLVMTx(c, from, key, n+2, &to, big.NewInt(9), nil, 21000, "1000000000", ChainIDOf(c.W), fmt.Sprint(n+2))
+				sp := hist.TxSpec{Kind: "OLVM", Bytes: bz, Note: "nonce ahead by two", Signers: []string{from.Addr.String()}}
+				sp.Meta = map[string]string{"from": from.Addr.String(), "nonce": fmt.Sprint(n + 2), "value": "9", "to": keys.Address(to.Bytes()).String(), "data": ""}
+				out = append(out, sp)
 			case 0:
 				to := ethcmn.BytesToAddress(es[pick(c.R, len(es))].Addr)
 				out = append(out, o.tx(c, from, &to, big.NewInt(1+c.R.Int63n(1e9)), nil, 21000+int64(c.R.Intn(3))*1000, "plain transfer"))
